@@ -14,7 +14,25 @@ import time
 VERIF = os.path.dirname(os.path.dirname(os.path.abspath(__file__)))
 
 
+def write_table():
+    """KILLMATRIX.md from the detected_by records of every seeded change (not just this run)"""
+    with open(os.path.join(VERIF, 'seeded', 'KILLMATRIX.md'), 'w') as f:
+        f.write('# Seeded changes vs. quick checks\n\n| change | property | outcome | obligations that '
+                'report it | wall s |\n|---|---|---|---|---|\n')
+        for name in sorted(os.listdir(os.path.join(VERIF, 'seeded'))):
+            mp = os.path.join(VERIF, 'seeded', name, 'meta.json')
+            if not os.path.isfile(mp):
+                continue
+            meta = json.load(open(mp))
+            d = meta.get('detected_by') or {}
+            f.write('| ' + ' | '.join(str(x) for x in (
+                name, meta['property'], d.get('outcome', 'not run'),
+                ', '.join(d.get('obligations_reporting_violation', [])), d.get('wall_s', ''))) + ' |\n')
+
+
 def main():
+    if sys.argv[1:] == ['--table']:
+        return write_table()
     names = sorted(d for d in os.listdir(os.path.join(VERIF, 'seeded'))
                    if os.path.isdir(os.path.join(VERIF, 'seeded', d)) and not d.startswith('_'))
     only = sys.argv[1:]
@@ -60,11 +78,7 @@ def main():
             print(rows[-1], flush=True)
         finally:
             shutil.rmtree(d, ignore_errors=True)
-    with open(os.path.join(VERIF, 'seeded', 'KILLMATRIX.md'), 'w') as f:
-        f.write('# Seeded changes vs. quick checks\n\n| change | property | outcome | obligations that '
-                'report it | wall s |\n|---|---|---|---|---|\n')
-        for r in rows:
-            f.write('| ' + ' | '.join(str(x) for x in r) + ' |\n')
+    write_table()
     missed = [r for r in rows if r[2] != 'detected']
     print('missed / errors:', missed)
 
